@@ -4,15 +4,19 @@ import json, os, shutil, subprocess, sys
 # usage: assemble_seeds.py [--round2] [seed ids...]
 ROUND2 = "--round2" in sys.argv
 ROUND3 = "--round3" in sys.argv
-SRC = "/tmp/seedout3" if ROUND3 else "/tmp/seedout2" if ROUND2 else "/tmp/seedout"
-LETTERS = ("e", "f") if ROUND3 else ("c", "d") if ROUND2 else ("a", "b")
+ROUND4 = "--round4" in sys.argv
+SRC = "/tmp/seedout4" if ROUND4 else "/tmp/seedout3" if ROUND3 else "/tmp/seedout2" if ROUND2 else "/tmp/seedout"
+LETTERS = ("g", "h") if ROUND4 else ("e", "f") if ROUND3 else ("c", "d") if ROUND2 else ("a", "b")
 DST = "/verif/seeded"
 extra_checks = {"C01a": ["C10"], "C03b": ["C16"], "C06b": ["C07"], "C07a": ["C14"], "C17b": ["C12"],
                 "C01c": ["C07"], "C02c": ["C07"], "C02d": ["C12"], "C03d": ["C01"], "C04d": ["C13"], "C09d": ["C18"], "C10d": ["C07"],
                 "C01f": ["C03"], "C03f": ["C01"], "C09f": ["C18"], "C18e": ["C09"], "C12e": ["C04"], "C04e": ["C13"], "C13f": ["C04", "C07"],
-                "C10f": ["C07"], "C07f": ["C01"], "C06f": ["C07"], "C14f": ["C07"]}
+                "C10f": ["C07"], "C07f": ["C01"], "C06f": ["C07"], "C14f": ["C07"],
+                "C01g": ["C03"], "C03g": ["C18"], "C04h": ["C18"], "C09h": ["C05"], "C13h": ["C07"], "C02h": ["C19"], "C17g": ["C08"], "C12h": ["C04"],
+                "C04g": ["C12"], "C01h": ["C03"], "C07g": ["C06"]}
 # seeds whose own property's check does not observe the mechanism; the named check is the one that decides
-decided_by = {"C09d": "C18", "C02d": "C12", "C09f": "C18", "C18e": "C09"}
+decided_by = {"C09d": "C18", "C02d": "C12", "C09f": "C18", "C18e": "C09",
+              "C01g": "C03", "C03g": "C18", "C04h": "C18", "C09h": "C05", "C13h": "C07"}
 only = [a for a in sys.argv[1:] if not a.startswith("--")]
 for prop in sorted(os.listdir(SRC)):
     if not prop.startswith("C") or not os.path.isdir(os.path.join(SRC, prop)):
